@@ -125,9 +125,12 @@ def M1(vc):
 WT = causes.WebhookType
 OPS = ('CREATE', 'UPDATE', 'DELETE', 'CONNECT')            # reviews.Operation
 # handler.operations: None (= all operations) or a NON-EMPTY collection of operations (kopf.on._verify_operations
-# rejects empty ones): every non-empty subset, as lists, and as the frozensets the deprecated `operation=` makes.
+# rejects empty ones): every non-empty subset, as lists and as the frozensets the deprecated `operation=` makes.
+# Every subset in EVERY collection type the declared type (Collection[str]) admits: list, tuple, set, frozenset.
 R5_OPERATIONS = [None] + [list(c) if i % 2 == 0 else frozenset(c)
                           for i, c in enumerate(c for r in range(1, 5) for c in itertools.combinations(OPS, r))]
+# R5t: the declared type is Collection[str] -- every collection type, for the single-operation declarations and a pair
+R5T_OPERATIONS = [kind(c) for c in (('DELETE',), ('CREATE',), ('DELETE', 'UPDATE')) for kind in (list, tuple, set, frozenset)]
 
 
 class _Container:
@@ -147,6 +150,18 @@ def _fin_where(x, pred):
     return pred(x)
 
 
+@harness('R5t', targets=['kopf._core.intents.registries.WebhooksRegistry.iter_handlers'], props=['C18'],
+         clauses=['excluded', 'webhook_id_and_type', 'operation', 'subresource_and_filters', 'mutating_on_delete',
+                  'selected_when_all_match', 'frame'],
+         canaries=['canary.yields_all', 'canary.never_yields'],
+         trusted=['as R5'])
+def R5t(vc):
+    """R5's clauses for `operations` given as a list, tuple, set or frozenset (the declared type is Collection[str]; the
+    deprecated `operation=` keyword makes a frozenset, users write tuples and sets): the selection may not depend on the
+    collection TYPE.  The other dimensions are narrowed (one id, two subresources) -- R5 covers them in full."""
+    return _r5(vc, R5T_OPERATIONS, True)
+
+
 @harness('R5', targets=['kopf._core.intents.registries.WebhooksRegistry.iter_handlers',
                         'kopf._core.intents.registries._matches_subresource'], props=['C18'],
          clauses=['excluded', 'webhook_id_and_type', 'operation', 'subresource_and_filters', 'mutating_on_delete',
@@ -155,6 +170,10 @@ def _fin_where(x, pred):
          trusted=['registries.match(handler, cause) == _matches_subresource(handler, cause) and <the other filters> (contract R4); '
                   'the other filters are an arbitrary boolean of (handler, cause)'])
 def R5(vc):
+    return _r5(vc, R5_OPERATIONS, False)
+
+
+def _r5(vc, operations_domain, narrow):
     """
     WebhooksRegistry.iter_handlers -- loop contract: ONE arbitrary registered handler h (the loop keeps no state
     between iterations), so the clauses hold for every handler of a registry of any size.  h is yielded at most once, and
@@ -174,20 +193,20 @@ def R5(vc):
     """
     from pyvc.loader import _STOP, vc_is
     h = handlers.WebhookHandler(
-        id=vc.fin('h.id', ['h', 'g']), fn=Opaque('fn'), param=None, errors=None, timeout=None, retries=None, backoff=None,
+        id=vc.fin('h.id', ['h', 'g'] if not narrow else ['h']), fn=Opaque('fn'), param=None, errors=None, timeout=None, retries=None, backoff=None,
         selector=None, labels=None, annotations=None, when=None, field=None, value=None,
         reason=vc.fin('h.reason', [WT.VALIDATING, WT.MUTATING]),
-        operations=vc.fin('h.operations', R5_OPERATIONS),
-        subresource=vc.fin('h.subresource', [None, '*', 'status', 'scale']),
+        operations=vc.fin('h.operations', operations_domain),
+        subresource=vc.fin('h.subresource', [None, '*', 'status', 'scale'] if not narrow else [None, '*']),
         persistent=None, side_effects=None, ignore_failures=None)
     cause = causes.WebhookCause(
         logger=NullLogger(), indices=Opaque('indices'), memo=Opaque('memo'), resource=Opaque('resource'),
         patch=Opaque('patch'), body=Opaque('body'), dryrun=False,
-        reason=vc.fin('cause.reason', [None, WT.VALIDATING, WT.MUTATING]),
-        webhook=vc.fin('cause.webhook', [None, 'h', 'g', 'other']),
+        reason=vc.fin('cause.reason', [None, WT.VALIDATING, WT.MUTATING] if not narrow else [None, WT.MUTATING]),
+        webhook=vc.fin('cause.webhook', [None, 'h', 'g', 'other'] if not narrow else [None, 'h']),
         headers={}, sslpeer={}, userinfo={}, warnings=[],
         operation=vc.fin('cause.operation', [None] + list(OPS)),
-        subresource=vc.fin('cause.subresource', [None, 'status', 'scale', '*']))
+        subresource=vc.fin('cause.subresource', [None, 'status', 'scale', '*'] if not narrow else [None, 'status']))
     excluded = vc.bool('h.id in excluded')
     others = vc.bool('other filters match(h, cause)')
     match_calls = []
